@@ -24,7 +24,9 @@ func c06Fragment(g *docGen, kind int) (src string, what string) {
 		g.noTrim = true
 		return "{{ " + g.rg.pick([]string{"a", "b|upper", "n + 1", "s|length", "\"lit\"", "lst|join:\",\"", "u"}) + " }}", "variable"
 	case 4:
-		return "{% comment %}" + g.rg.pick([]string{"x", "{{ never }}", "{% if %}", "", "{% comment %}", "a{% comment x %}b", "{% endif %}{% endfor %}", "{# #}", "{% endcomment", "{%comment%}", "{% block b %}"}) + "{% endcomment %}", "commenttag"
+		return "{% comment %}" + g.rg.pick([]string{"x", "{{ never }}", "{% if %}", "", "{% comment %}", "a{% comment x %}b", "{% endif %}{% endfor %}", "{# #}", "{% endcomment", "{%comment%}", "{% block b %}",
+			// what a comment holds is never looked at, so it may hold what no expression or tag may
+			"{{ price ~ currency }}", "{% if a ? b : c %}", "{{ $x }}", "{{ a; b }}", "{{ a & b }}", "{% @decorator %}", "{{ a \\ b }}", "{{ `x` }}", "{{ a # b }}", "{{ 1 ^^ 2 }}", "{{ 'q' }}"}) + "{% endcomment %}", "commenttag"
 	case 5:
 		return "{% templatetag " + g.rg.pick([]string{"openblock", "closeblock", "openvariable", "closevariable", "openbrace", "closebrace", "opencomment", "closecomment"}) + " %}", "templatetag"
 	}
@@ -108,6 +110,21 @@ func runC06(r *run) {
 			src += strings.Repeat("{% endif %}", strings.Count(src, "if a"))
 			emit(caseT{"render", w.args(src, c06Ctx())})
 		}
+		// long runs of literal text (around the usual buffer sizes) after shorter output
+		for i := 0; i < 60; i++ {
+			g := newDocGen(rg.fork(uint64(700000 + i)))
+			size := []int{2047, 2048, 2049, 4095, 4096, 4097, 5000, 9000}[i%8]
+			big := strings.Repeat("0123456789abcdef", size/16+1)[:size]
+			var frags []string
+			for k := 0; k < 1+g.rg.intn(3); k++ {
+				f, _ := c06Fragment(g, 1+g.rg.intn(6))
+				frags = append(frags, f)
+			}
+			frags = append(frags, g.rg.pick([]string{"s", "short ", "{{ b }}"}), g.rg.pick([]string{"{# c #}", "{% verbatim %}v{% endverbatim %}", "{% templatetag openblock %}", "{{ a }}"}), big, "{# c #}", big[:size/2], "tail")
+			args := w.args(strings.Join(frags, ""), c06Ctx())
+			args = append(args, "-", "-", joinHex(frags))
+			emit(caseT{"frags", args})
+		}
 		// fragment sequences
 		for i := 0; i < nfr; i++ {
 			g := newDocGen(rg.fork(uint64(i)))
@@ -188,6 +205,15 @@ func execC06(r *run, c caseT) {
 			if e1 == nil && string(b1) != keep {
 				r.reject(id, "the bytes returned by ExecuteBytes changed when something else was rendered afterwards", map[string]any{"source_hex": c.args[0], "before": keep, "after": string(b1)})
 				return
+			}
+		}
+		// literal text is reproduced in source order whichever entry point renders the template
+		if tpl, err := pongo2.FromString(src); err == nil && o.err == nil {
+			for k := 1; k < 4; k++ {
+				if out, xerr, p := execVariant(tpl, ctx.goContext(), k); xerr != nil || p != nil || out != o.out {
+					r.reject(id, "one of the Execute variants reproduces the text differently", map[string]any{"source_hex": c.args[0], "variant": k, "output": out, "expected": o.out})
+					return
+				}
 			}
 		}
 		// the bytes handed to FromBytes belong to the caller: reusing them afterwards changes nothing
